@@ -11,8 +11,8 @@ pub fn ok_or_str<'a>(o: Option<&'a Str>, e: PathError) -> (r: Result<&'a Str, Rv
 { match o { Some(s) => Ok(s), None => Err(e.into()) } }
 impl PathBuf {
 //@ item path_to_string file=src/core/string.rs block="impl ToStringExt for Path" fn=to_string props=C15,C12,C05,C17,C14
-//@ rw R1 1 ⟦self.to_str().ok_or(PathError::failed_to_string(self))?⟧ => ⟦ok_or_str(self.to_str(), PathError::failed_to_string(self))?⟧
-//@ rw R1 1 ⟦Ok(String::from(_str))⟧ => ⟦Ok(_str.to_string())⟧
+//@ rw R1 * ⟦self.to_str().ok_or(PathError::failed_to_string(self))?⟧ => ⟦ok_or_str(self.to_str(), PathError::failed_to_string(self))?⟧
+//@ rw R1 * ⟦Ok(String::from(_str))⟧ => ⟦Ok(_str.to_string())⟧
     pub fn to_string(&self) -> (r: RvResult<Str>)
         ensures r is Ok == self.utf8_ok(), r is Ok ==> r->Ok_0@ == self.pstr(), r is Err ==> r->Err_0.kind == ErrKind::FailedToString
 //@ body
@@ -124,7 +124,7 @@ pub proof fn lemma_mash_contains_dir(d: Comps, p: Comps)
 //@ item mash file=src/sys/fs/path.rs fn=mash props=C15,C05,C17,C18,C12,C09,C01,C10
 //@ sig pub fn mash<T: AsRef<Path>, U: AsRef<Path>>(dir: T, base: U) -> PathBuf
 //@ rw R3 1 for
-//@ rw R4 1 ⟦path.components().collect::<PathBuf>()⟧ => ⟦collect_components(path.components())⟧
+//@ rw R4 * ⟦path.components().collect::<PathBuf>()⟧ => ⟦collect_components(path.components())⟧
 //@ ins after ⟦let mut path = dir.as_ref().to_path_buf();⟧
     let ghost d = dir.comps();
     let ghost p = base.comps();
@@ -190,7 +190,7 @@ pub fn ok_or_parent<'a>(o: Option<&'a PathBuf>, p: &PathBuf) -> (r: Result<&'a P
     ensures o is Some ==> r is Ok && same_path(r->Ok_0, o->Some_0), o is None ==> r is Err && r->Err_0.kind == ErrKind::ParentNotFound
 { match o { Some(s) => Ok(s), None => Err(PathError::parent_not_found(p).into()) } }
 //@ item dir file=src/sys/fs/path.rs fn=dir props=C15,C05,C12,C01,C03,C09
-//@ rw R4 1 ⟦path.parent().ok_or_else(|| PathError::parent_not_found(path))?⟧ => ⟦ok_or_parent(path.parent(), path)?⟧
+//@ rw R4 * ⟦path.parent().ok_or_else(|| PathError::parent_not_found(path))?⟧ => ⟦ok_or_parent(path.parent(), path)?⟧
 pub fn dir(path: &PathBuf) -> (r: RvResult<PathBuf>)
     ensures (path.comps().len() == 0 || path.comps() == seq![Component::RootDir]) ==> r is Err && r->Err_0.kind == ErrKind::ParentNotFound,
             !(path.comps().len() == 0 || path.comps() == seq![Component::RootDir]) ==> r is Ok && r->Ok_0.comps() == path.comps().drop_last(),     //@ clause dir.splits_off_exactly_one [C15]
@@ -216,8 +216,8 @@ pub fn has_suffix(path: &PathBuf, suffix: &PathBuf) -> (r: bool)
 #[verifier::external_body]
 pub fn fmt_concat(a: Str, b: &Str) -> (r: Str) ensures r@ == a@ + b@ { unimplemented!() }
 //@ item concat file=src/sys/fs/path.rs fn=concat props=C15,C12
-//@ rw R4 1 ⟦format!("{}{}", path.as_ref().to_string()?, val.as_ref())⟧ => ⟦&fmt_concat(path.as_ref().to_string()?, val.as_ref())⟧
-//@ rw R1 1 ⟦PathBuf::from(⟧ => ⟦PathBuf::from_s(⟧
+//@ rw R4 * ⟦format!("{}{}", path.as_ref().to_string()?, val.as_ref())⟧ => ⟦&fmt_concat(path.as_ref().to_string()?, val.as_ref())⟧
+//@ rw R1 * ⟦PathBuf::from(⟧ => ⟦PathBuf::from_s(⟧
 pub fn concat(path: &PathBuf, val: &Str) -> (r: RvResult<PathBuf>)
     ensures r is Ok == path.utf8_ok(), r is Ok ==> r->Ok_0.pstr() == path.pstr() + val@,     //@ clause concat.appends_without_separator [C15]
 //@ body
@@ -396,7 +396,7 @@ pub fn ext(path: &PathBuf) -> (r: RvResult<Str>)
             (spec_ext(path.comps()) is Some && name_utf8(path.comps().last()->Normal_0)) ==> r is Ok,
 //@ body
 //@ item trim_ext file=src/sys/fs/path.rs fn=trim_ext props=C15,C12
-//@ rw R4 1 re⟦format!\("\.\{\}", (.*?)\)\)⟧ => ⟦&PathBuf::from_s(fmt_dot(\1)))⟧
+//@ rw R4 * re⟦format!\("\.\{\}", (.*?)\)\)⟧ => ⟦&PathBuf::from_s(fmt_dot(\1)))⟧
 pub fn trim_ext(path: &PathBuf) -> (r: RvResult<PathBuf>)
     ensures
         spec_ext(path.comps()) is None ==> r is Ok && r->Ok_0.pstr() == path.pstr() && r->Ok_0.comps() == path.comps(),
@@ -410,7 +410,7 @@ pub open spec fn trim_ext_result(path: &PathBuf, t: &PathBuf) -> bool {
     &&& (spec_ext(path.comps()) is Some && path.utf8_ok()) ==> t.pstr() == spec_trim_suffix(path.pstr(), seq!['.'] + spec_ext(path.comps())->Some_0)
 }
 //@ item name file=src/sys/fs/path.rs fn=name props=C15,C12
-//@ rw R1 1 ⟦base(trim_ext(path)?)⟧ => ⟦base(&trim_ext(path)?)⟧
+//@ rw R1 * ⟦base(trim_ext(path)?)⟧ => ⟦base(&trim_ext(path)?)⟧
 pub fn name(path: &PathBuf) -> (r: RvResult<Str>)
     ensures
         // the final component, without its extension
